@@ -18,10 +18,11 @@ SIZES = {'C02': {'VERIF_RUNS': '30000'}, 'C03': {'VERIF_RUNS': '30000'}, 'C08': 
 def run(chk, seed, workers, hashseed, out):
     env = dict(os.environ, VERIF_SEED=str(seed), VERIF_WORKERS=str(workers), VERIF_OUT=out, PYTHONDONTWRITEBYTECODE='1')
     env.update(SIZES[chk])
+    env.pop('PYTHONHASHSEED', None)
     if hashseed is not None:
-        env['PYTHONHASHSEED'] = str(hashseed)
+        env['VERIF_HASHSEED'] = str(hashseed)
     else:
-        env.pop('PYTHONHASHSEED', None)
+        env.pop('VERIF_HASHSEED', None)
     p = subprocess.run(['/venv/bin/python', os.path.join(VERIF, 'run_check.py'), chk, '--tier', 'quick'],
                        env=env, capture_output=True, text=True, timeout=3600)
     ev = json.load(open(os.path.join(out, 'evidence', chk + '.json')))
